@@ -15,8 +15,8 @@ TEXT = {
          "bounds: M in {1,2}, n<=2M+1, n<=max(ef,k), levels {0,1}, four selection modes; recall@10 clause not decided"),
  "C08": ("Bounded symbolic model checking of Save -> fragmenting reader -> Load on symbolic index states, with field-by-field comparison, resave/reload, byte-counter and stale-item checks; length fields probed with lengths around 2^8/2^16 as solver variables.",
          "bounds: <=3 items (5 operations in one configuration), readers delivering all/1/2..5 bytes per call; two known findings (over-long metadata key/value) are listed in known_findings.json"),
- "C09": ("Bounded symbolic model checking of the real Dataset.Search goroutines/collector with modelled channels and select: every worker outcome, replica choice, completion order and select choice within the bound; scores symbolic with a rank oracle.",
-         "bounds: <=2-3 partitions, 2 remote nodes, <=2 items per partition; interleavings at synchronisation points; remote services are harness pb.SearchClient implementations"),
+ "C09": ("Bounded symbolic model checking of the real Dataset.Search goroutines/collector with modelled channels and select: every worker outcome, replica choice, completion order and select choice within the bound; scores symbolic with a rank oracle. End-to-end variant: remote nodes are real Datasets whose real SearchPartitions answers from real indexes with symbolic vectors; the answer must be the k best of the whole dataset with true scores and no id twice.",
+         "bounds: <=2 partitions on 2 remote nodes (3 partitions on 3 nodes with one worker each, k=2), <=2 items per partition; interleavings at synchronisation points; remote services are harness pb.SearchClient implementations (end-to-end variant: backed by real Datasets)"),
  "C10": ("Bounded symbolic model checking with the 128-bit id and the partition count as bit-vector variables: range, reference-function equality, determinism, and agreement of every API path (single and batch) on the owner; two solvers must agree on the arithmetic core.",
          "bounds: n in 1..1024 for UuidMod; P<=4 (quick) for the API paths plus one 300-partition run; z3 5.1 and cvc5 --solve-bv-as-int"),
  "C11": ("Bounded model checking of the real proposer/apply-loop interplay over a harness raft node: every interleaving at synchronisation points with commit/no-commit, plus unreachable owners and mixed batches.",
@@ -37,8 +37,8 @@ TEXT = {
          "bounds: <=3 calls (4 thorough), batches <=2, terms < 100; Badger API model trusted (validated by native replays); reference driven per the raft contract"),
  "C12": ("Bounded model checking of a one-node server assembled from the real components (handlers, DatasetManager, Dataset, partitions, ready loops, badgerWAL, Allocator): one hostile well-typed request per RPC over all request shapes in the bound; panics, fatal logs (apply errors) and deadlocks are violations; counterexamples replayed on a native one-node assembly with real etcd raft and real in-memory Badger.",
          "bounds: id shapes {valid, unknown, 15 bytes, empty}, vector shapes {right, longer, empty} with values {number, NaN}, k in {0,2,2^32-1}, <=2 batch items, catalogue shapes dimension 0..2 / partitions 0..2 / replicas 0..1 / undefined space; one schedule per request; no solver variables occur (exhaustive path enumeration by the symbolic executor)"),
- "C14": ("Bounded model checking of the catalogue state machine (every log of create/delete/replica changes, every snapshot cut, every applied prefix: replay == restore+replay) and of restart through the real Server.setup wiring executed twice on one data directory (acknowledged datasets listed, deleted ones absent, with and without a compacted catalogue).",
-         "bounds: logs <=3-4 entries over 2 dataset ids; one restart; harness raft node; multi-node acknowledgement not decided; restart runs are not replayed natively"),
+ "C14": ("Bounded model checking of the catalogue state machine (every log of create/delete/replica changes, every snapshot cut, every applied prefix: replay == restore+replay), of restart through the real Server.setup wiring executed twice on one data directory, and of a 2-3 member cluster of real Servers over a shared committed log (creates/deletes through any member, replica addition by the allocator, leader compaction, late joiner, restart of any member): every member lists the same catalogue, acknowledged datasets listed, deleted ones absent.",
+         "bounds: logs <=3-4 entries over 2 dataset ids; <=2 datasets with <=2 partitions on <=3 members, one restart; harness raft (one-member groups, or one shared committed log for the zero groups); restart and cluster runs are not replayed natively"),
  "C19": ("Bounded symbolic model checking of the real utils.PriorityQueue + container/heap SSA: all push/pop/peek/reverse histories up to the bound, priorities symbolic; assertions discharged by z3 per path.",
          "bounds: 5 mixed / 6 push-pop operations (7 / 8 thorough) followed by a full drain, one Reverse per history; priorities finite non-NaN"),
  "C20": ("Reduced claim: bounded model checking of a 1-3 member cluster of real Servers over an in-memory transport: joins through the real handshake (stream broken after any message, then retried), removal, leader compaction after any change, restart of any member (with or without its join list): every live member must list exactly the acknowledged members with the announced addresses; plus one member over several lives, and installation of a zero-group snapshot on another member. etcd/raft between propose and commit (elections, raft message loss) is replaced by a shared committed log and is not decided.",
